@@ -312,6 +312,14 @@ class Component( ComponentLevel7 ):
     top._dsl.all_signals       |= { x for x in added_objs if isinstance( x, Signal ) }
     top._dsl.all_named_objects |= added_objs
 
+    # Second references to objects of the replaced component now refer to
+    # the objects of that name in the new component
+    for (container, key, name) in top._dsl.__dict__.pop( "_saved_references", [] ):
+      try:
+        container[ key ] = eval( name )
+      except (AttributeError, IndexError):
+        pass # the new component has no object of that name
+
     del NamedObject._elaborate_stack
 
   def _delete_component( top, obj ):
@@ -521,6 +529,23 @@ class Component( ComponentLevel7 ):
             saved_constraints.append( (host, "U_U_constraints",
               tuple( ( repr(removed_blks[b]), b.__name__ ) if b in removed_blks else b
                      for b in (b0, b1) ), None) )
+
+      # Second references to objects of the deleted component that the
+      # parent or an ancestor keeps ( s.outs = [ c.out for c in s.cs ],
+      # s.first = s.l[0] ): remember where they are, by name
+      saved_references = []
+      for host in hosts:
+        stack = [ host.__dict__ ]
+        while stack:
+          container = stack.pop()
+          for key, x in ( container.items() if isinstance( container, dict ) else enumerate( container ) ):
+            if isinstance( container, dict ) and ( not isinstance( key, str ) or key[0] == '_' ):
+              continue
+            if isinstance( x, list ):
+              stack.append( x )
+            elif isinstance( x, NamedObject ) and x in removed_readables:
+              saved_references.append( (container, key, repr(x)) )
+      top._dsl._saved_references = saved_references
 
       saved_connections = []
       saved_loopbacks   = set()
